@@ -7,8 +7,9 @@ package httpserver
 //
 // Two real muxes are built (newMux + reload) from ONE drawn HTTPServer spec:
 // the system under test with cacheSize n in {1,2,3,16} and a twin with
-// cacheSize 0. One to four simulated client tasks send request sequences over
-// a tiny alphabet of hosts / methods / paths / headers / client IPs through
+// cacheSize 0 (both are hot-reloaded together, see HOT RELOADS below). One to
+// four simulated client tasks send request sequences over a tiny alphabet of
+// hosts / methods / paths / headers / client IPs / body lengths through
 // ServeHTTP (httptest recorders, recording MuxMapper) under the seeded
 // scheduler; handlers of the cached mux can park so that requests overlap.
 //
@@ -45,7 +46,9 @@ package httpserver
 // instrumented; the gate is the atomic load of the instance in ServeHTTP), so
 // the lookup/insert of a request and the handler entry (or, for unrouted
 // requests, the return of ServeHTTP) form one atomic section; the harness
-// stamps the history there, hence "earlier" is exact.
+// stamps the history there, hence "earlier" is exact (in the quarter of the
+// runs with statement gates inside mux.go it is only approximate; the order
+// serves the classifier, never the oracle).
 //
 // c12_candidate_fix.patch (same directory) is a 30-line change to mux.go with
 // which this check finds nothing (kept for the triage decision, not applied).
@@ -58,14 +61,54 @@ package httpserver
 // (url.ParseRequestURI). The twin alone decides what is right; a mismatch
 // whose only related history is such a pair is labelled C12.key-collision.
 //
-// Leniency / not generated: no reload during a run (C11's domain); bodies are
-// empty; xForwardedFor off; one of path / pathPrefix / pathRegexp per entry;
-// client IP comes from the transport address (no X-Real-Ip / X-Forwarded-For
-// spoofing: C05's domain); /.well-known/acme-challenge/ is not requested.
+// HOT RELOADS (added): a run is a sequence of phases. Between two phases (no
+// request in flight: "quiescent") and/or while the clients of a phase are
+// running ("live", done by a reloader task) BOTH muxes are reloaded with the
+// same new spec: first the cache-less twin, then the cached mux. The new spec
+// is the previous one after edits (server / rule / path ipFilter added,
+// removed or replaced; backend, rewrite, methods, header conditions, host
+// condition of an entry changed; entries or rules swapped, inserted, deleted;
+// path- or server-level clientMaxBodySize changed), an identical spec, a spec
+// in which only server-level fields differ (rules deep-equal), or a freshly
+// drawn rule set; cacheSize stays the same (in one reload of ten it changes
+// to another size > 0). After each reload of the twin its muxInstance is kept:
+// refs[g] is the cache-less server of generation g, quiescent for ever, so it
+// can be asked at any time what generation g answers to a request.
+//
+// ORACLE WITH RELOADS (from the statement; the cache-less server has the same
+// history of reloads): a request is started when lo reloads of the cached mux
+// have RETURNED and returns when hi reloads have BEGUN (lo <= hi). Its answer
+// must equal the answer of refs[g] for some g in lo..hi: a request that
+// overlaps a reload may see either generation, a request started after the
+// reload returned must match the new generation (lo == hi).
+//
+//	C12.reload.stale-generation           answer (of none of lo..hi) that no earlier request with this cache key received inside the generation,
+//	                                      while an older generation gives that answer (or has seen the (host,method,path), this one has not)
+//	C12.reload.overlap-neither-generation request overlapped a reload, answer is that of no generation
+//	C12.body-limit                        413 where the cache-less server routes, or the reverse, inside one generation
+//
+// Request bodies (added): requests may carry a body (Content-Length or
+// chunked); entries and the server may set clientMaxBodySize (-1, small
+// values), so 413 is one of the compared statuses.
+//
+// Client IP (added): some requests carry X-Forwarded-For / X-Real-Ip, so the
+// address the filters judge differs from the transport address.
+//
+// Leniency / not generated: xForwardedFor off; one of path / pathPrefix /
+// pathRegexp per entry; /.well-known/acme-challenge/ is not requested;
+// private / loopback client addresses are not used; reloads are never concurrent
+// with each other (easegress serialises them too); the MuxMapper and the set of
+// unknown backends stay the same across reloads; a request that overlaps
+// several reloads may be answered by any generation in its window; only the
+// first generation's spec text is always validated by supervisor.NewSpec,
+// later ones in a tenth of the runs (validate_all) and otherwise only decoded
+// (validation costs more than a whole run; all texts come from one renderer
+// over fixed alphabets; probe c12.spec_rejected must stay 0).
 
 import (
 	"encoding/json"
 	"fmt"
+	"io"
 	"net"
 	"net/http"
 	"net/http/httptest"
@@ -109,6 +152,7 @@ type c12Path struct {
 	Headers  []c12Hdr `json:"headers"`
 	MatchAll bool     `json:"match_all,omitempty"`
 	IPF      *c12IPF  `json:"ipf,omitempty"`
+	MaxBody  int64    `json:"max_body,omitempty"` // clientMaxBodySize of the entry (0: the server's)
 }
 
 type c12Rule struct {
@@ -131,6 +175,10 @@ type c12Req struct {
 	IP     string  `json:"ip"`
 	GapUs  int64   `json:"gap_us,omitempty"`
 	Hold   int     `json:"hold,omitempty"` // gates the handler of the cached mux parks at (request stays in flight)
+	Body   int     `json:"body,omitempty"` // length of the request body
+	Chunk  bool    `json:"chunk,omitempty"` // body sent with Transfer-Encoding: chunked (no Content-Length)
+	Fwd    string  `json:"fwd,omitempty"`   // X-Forwarded-For value (the client sits behind a proxy)
+	XReal  string  `json:"x_real,omitempty"` // X-Real-Ip value
 
 	// Path is the raw request target as sent on the wire (may carry percent
 	// escapes and a query); dec is the decoded path net/http hands to the mux.
@@ -141,12 +189,37 @@ type c12Client struct {
 	Reqs []c12Req `json:"reqs"`
 }
 
+// c12SpecD is one generation of the HTTPServer spec (what a reload installs).
+type c12SpecD struct {
+	CacheSize int       `json:"cache_size,omitempty"` // of the cached mux; in a reload 0 = unchanged
+	IPF       *c12IPF   `json:"ipf,omitempty"`
+	Rules     []c12Rule `json:"rules"`
+	MaxBody   int64     `json:"max_body,omitempty"` // server-level clientMaxBodySize (0: default)
+}
+
+// c12Live is a reload done by the reloader task while the clients of a phase run.
+type c12Live struct {
+	AtUs int64    `json:"at_us,omitempty"`
+	Skip int      `json:"skip,omitempty"` // gates the reloader passes before it starts
+	Spec c12SpecD `json:"spec"`
+}
+
+// c12Phase: an optional reload at the quiescent point before the phase, then
+// clients (and live reloads) running until all of them are done.
+type c12Phase struct {
+	Spec    *c12SpecD   `json:"spec,omitempty"`
+	Clients []c12Client `json:"clients"`
+	Live    []c12Live   `json:"live"`
+}
+
+// c12Scenario: the embedded spec is generation 0, Clients/Live the first phase.
 type c12Scenario struct {
-	CacheSize int         `json:"cache_size"`
-	IPF       *c12IPF     `json:"ipf,omitempty"`
-	Rules     []c12Rule   `json:"rules"`
-	Missing   []string    `json:"missing"` // backends the MuxMapper does not know (503)
-	Clients   []c12Client `json:"clients"`
+	c12SpecD
+	Missing     []string    `json:"missing"` // backends the MuxMapper does not know (503)
+	Clients     []c12Client `json:"clients"`
+	Live        []c12Live   `json:"live"`
+	Next        []c12Phase  `json:"next"`
+	ValidateAll bool        `json:"validate_all,omitempty"` // every generation's text goes through supervisor.NewSpec
 }
 
 var (
@@ -234,6 +307,9 @@ func c12GenPath(rng *sim.Rand, backend string, pIPF, pHdr float64) c12Path {
 	if rng.Bool(pIPF) {
 		p.IPF = c12GenIPF(rng)
 	}
+	if rng.Bool(0.15) {
+		p.MaxBody = int64(rng.Pick(-1, 4, 4, 16))
+	}
 	return p
 }
 
@@ -317,8 +393,216 @@ func c12NearVariant(rng *sim.Rand, host, method, target string) (string, string,
 	return host, method, target
 }
 
+// c12GenRule draws one rule (host condition, filter, 1-3 entries and, behind a
+// header-conditioned entry, often its header-less copy).
+func c12GenRule(rng *sim.Rand, backend func() string, pIPF, pHdr float64) c12Rule {
+	ru := c12Rule{}
+	switch rng.Intn(7) {
+	case 0, 1:
+		ru.Host = "a.test"
+	case 2:
+		ru.Host = "b.test"
+	case 3:
+		ru.HostRegexp = `^a\.`
+	case 4:
+		ru.HostRegexp = `\.test$`
+	default:
+		// no host condition: matches every host
+	}
+	if rng.Bool(pIPF) {
+		ru.IPF = c12GenIPF(rng)
+	}
+	np := rng.Range(1, 3)
+	for j := 0; j < np; j++ {
+		p := c12GenPath(rng, backend(), pIPF, pHdr)
+		ru.Paths = append(ru.Paths, p)
+		if len(p.Headers) > 0 && rng.Bool(0.6) {
+			// the risky shape: the same entry without the header condition right behind it
+			q := p
+			q.Backend = backend()
+			q.Headers = []c12Hdr{}
+			q.MatchAll = false
+			if q.Rewrite != "" {
+				q.Rewrite = strings.Replace(q.Rewrite, p.Backend, q.Backend, 1)
+			}
+			if rng.Bool(0.3) {
+				q.IPF = c12GenIPF(rng)
+			} else if rng.Bool(0.5) {
+				q.IPF = nil
+			}
+			ru.Paths = append(ru.Paths, q)
+		}
+	}
+	return ru
+}
+
+func c12CopySpec(d *c12SpecD) c12SpecD {
+	var c c12SpecD
+	b, _ := json.Marshal(d)
+	_ = json.Unmarshal(b, &c)
+	return c
+}
+
+// c12NextSpec derives the spec a reload installs from the one in force.
+func c12NextSpec(rng *sim.Rand, prev *c12SpecD, backend func() string, pIPF, pHdr float64) c12SpecD {
+	d := c12CopySpec(prev)
+	d.CacheSize = 0 // unchanged
+	if rng.Bool(0.1) {
+		d.CacheSize = rng.Pick(1, 2, 3, 16)
+	}
+	toggleIPF := func(f **c12IPF) {
+		if *f != nil && rng.Bool(0.4) {
+			*f = nil
+		} else {
+			*f = c12GenIPF(rng)
+		}
+	}
+	serverEdit := func() {
+		if rng.Bool(0.75) {
+			toggleIPF(&d.IPF)
+		} else {
+			d.MaxBody = int64(rng.Pick(0, -1, 8, 8, 32))
+		}
+	}
+	pickPath := func() *c12Path {
+		var cands []*c12Path
+		for i := range d.Rules {
+			for j := range d.Rules[i].Paths {
+				cands = append(cands, &d.Rules[i].Paths[j])
+			}
+		}
+		if len(cands) == 0 {
+			return nil
+		}
+		return cands[rng.Intn(len(cands))]
+	}
+	switch rng.Pick(0, 0, 0, 1, 1, 1, 1, 1, 1, 2, 3) {
+	case 0: // only server-level fields change, the rules stay deep-equal
+		serverEdit()
+	case 2: // identical spec
+	case 3: // fresh rule set
+		d.Rules = nil
+		nr := rng.Pick(1, 1, 2, 2, 3)
+		for i := 0; i < nr; i++ {
+			d.Rules = append(d.Rules, c12GenRule(rng, backend, pIPF, pHdr))
+		}
+		if rng.Bool(0.3) {
+			serverEdit()
+		}
+	default: // one to three edits of the rules
+		for n := rng.Pick(1, 1, 1, 2, 3); n > 0; n-- {
+			p := pickPath()
+			if p == nil || len(d.Rules) == 0 {
+				serverEdit()
+				continue
+			}
+			ru := &d.Rules[rng.Intn(len(d.Rules))]
+			switch rng.Intn(14) {
+			case 0:
+				serverEdit()
+			case 1:
+				toggleIPF(&ru.IPF)
+			case 2:
+				toggleIPF(&p.IPF)
+			case 3, 4: // the entry now leads to another backend
+				nb := backend()
+				if p.Rewrite != "" {
+					p.Rewrite = strings.Replace(p.Rewrite, p.Backend, nb, 1)
+				}
+				p.Backend = nb
+			case 5: // rewrite target
+				switch {
+				case p.Path == "" && p.Prefix == "" && p.Regexp == "":
+					p.Backend = backend()
+				case p.Rewrite != "" && rng.Bool(0.5):
+					p.Rewrite = ""
+				default:
+					p.Rewrite = "/n" + p.Backend
+				}
+			case 6: // method list
+				if len(p.Methods) > 0 && rng.Bool(0.4) {
+					p.Methods = []string{}
+				} else {
+					p.Methods = c12Subset(rng, []string{"GET", "POST", "PUT"}, 1, 2)
+				}
+			case 7: // header condition
+				if len(p.Headers) > 0 {
+					p.Headers, p.MatchAll = []c12Hdr{}, false
+				} else {
+					p.Headers = c12GenHeaders(rng)
+					p.MatchAll = rng.Bool(0.3)
+				}
+			case 8: // order of entries / rules
+				if len(ru.Paths) > 1 {
+					i := rng.Intn(len(ru.Paths) - 1)
+					ru.Paths[i], ru.Paths[i+1] = ru.Paths[i+1], ru.Paths[i]
+				} else if len(d.Rules) > 1 {
+					i := rng.Intn(len(d.Rules) - 1)
+					d.Rules[i], d.Rules[i+1] = d.Rules[i+1], d.Rules[i]
+				} else {
+					p.Backend = backend()
+				}
+			case 9: // entry deleted / inserted
+				if len(ru.Paths) > 1 && rng.Bool(0.5) {
+					i := rng.Intn(len(ru.Paths))
+					ru.Paths = append(ru.Paths[:i:i], ru.Paths[i+1:]...)
+				} else {
+					i := rng.Intn(len(ru.Paths) + 1)
+					np := c12GenPath(rng, backend(), pIPF, pHdr)
+					ps := append([]c12Path{}, ru.Paths[:i]...)
+					ps = append(ps, np)
+					ru.Paths = append(ps, ru.Paths[i:]...)
+				}
+			case 10: // body limit of the entry
+				old := p.MaxBody
+				p.MaxBody = int64(rng.Pick(0, -1, 4, 4, 16))
+				if p.MaxBody == old {
+					p.MaxBody = 2
+				}
+			case 11: // host condition of a rule
+				ru.Host, ru.HostRegexp = "", ""
+				switch rng.Intn(4) {
+				case 0:
+					ru.Host = "a.test"
+				case 1:
+					ru.Host = "b.test"
+				case 2:
+					ru.HostRegexp = `\.test$`
+				}
+			case 12: // rule deleted / appended
+				if len(d.Rules) > 1 && rng.Bool(0.5) {
+					i := rng.Intn(len(d.Rules))
+					d.Rules = append(d.Rules[:i:i], d.Rules[i+1:]...)
+				} else if len(d.Rules) < 4 {
+					nr := c12GenRule(rng, backend, pIPF, pHdr)
+					if rng.Bool(0.5) {
+						d.Rules = append([]c12Rule{nr}, d.Rules...)
+					} else {
+						d.Rules = append(d.Rules, nr)
+					}
+				}
+			case 13: // path condition
+				if p.Rewrite == "" {
+					p.Path, p.Prefix, p.Regexp = "", "", ""
+					switch rng.Intn(4) {
+					case 0:
+						p.Path = rng.PickStr("/x", "/y", "/x/y")
+					case 1:
+						p.Prefix = rng.PickStr("/x", "/")
+					case 2:
+						p.Regexp = "^/(x|y)$"
+					}
+				} else {
+					p.Backend = backend()
+				}
+			}
+		}
+	}
+	return d
+}
+
 func c12Gen(rng *sim.Rand, tier string) interface{} {
-	sc := &c12Scenario{Missing: []string{}}
+	sc := &c12Scenario{Missing: []string{}, Live: []c12Live{}, Next: []c12Phase{}}
 	sc.CacheSize = rng.Pick(1, 1, 2, 3, 16, 16)
 	collide := rng.Bool(0.2)
 	pIPF := []float64{0, 0.15, 0.3, 0.5}[rng.Intn(4)]
@@ -326,52 +610,43 @@ func c12Gen(rng *sim.Rand, tier string) interface{} {
 	if rng.Bool(pIPF) {
 		sc.IPF = c12GenIPF(rng)
 	}
+	if rng.Bool(0.12) {
+		sc.MaxBody = int64(rng.Pick(-1, 8, 8, 32))
+	}
 	nb := 0
 	backend := func() string { nb++; return fmt.Sprintf("b%d", nb) }
 	nr := rng.Pick(1, 1, 2, 2, 3)
 	for i := 0; i < nr; i++ {
-		ru := c12Rule{}
-		switch rng.Intn(7) {
-		case 0, 1:
-			ru.Host = "a.test"
-		case 2:
-			ru.Host = "b.test"
-		case 3:
-			ru.HostRegexp = `^a\.`
-		case 4:
-			ru.HostRegexp = `\.test$`
-		default:
-			// no host condition: matches every host
-		}
-		if rng.Bool(pIPF) {
-			ru.IPF = c12GenIPF(rng)
-		}
-		np := rng.Range(1, 3)
-		for j := 0; j < np; j++ {
-			p := c12GenPath(rng, backend(), pIPF, pHdr)
-			ru.Paths = append(ru.Paths, p)
-			if len(p.Headers) > 0 && rng.Bool(0.6) {
-				// the risky shape: the same entry without the header condition right behind it
-				q := p
-				q.Backend = backend()
-				q.Headers = []c12Hdr{}
-				q.MatchAll = false
-				if q.Rewrite != "" {
-					q.Rewrite = strings.Replace(q.Rewrite, p.Backend, q.Backend, 1)
-				}
-				if rng.Bool(0.3) {
-					q.IPF = c12GenIPF(rng)
-				} else if rng.Bool(0.5) {
-					q.IPF = nil
-				}
-				ru.Paths = append(ru.Paths, q)
-			}
-		}
-		sc.Rules = append(sc.Rules, ru)
+		sc.Rules = append(sc.Rules, c12GenRule(rng, backend, pIPF, pHdr))
 	}
 	if rng.Bool(0.1) && nb > 0 {
 		sc.Missing = append(sc.Missing, fmt.Sprintf("b%d", rng.Range(1, nb)))
 	}
+
+	// reloads: none in a third of the runs; each one either at a quiescent
+	// point (it opens a new phase) or live, inside the current phase
+	nReload := rng.Pick(0, 0, 1, 1, 2, 3)
+	pLive := []float64{0, 0.5, 0.5, 1}[rng.Intn(4)]
+	cur := &sc.c12SpecD
+	phaseLive := []*[]c12Live{&sc.Live}
+	for i := 0; i < nReload; i++ {
+		d := c12NextSpec(rng, cur, backend, pIPF, pHdr)
+		if rng.Bool(pLive) {
+			l := phaseLive[len(phaseLive)-1]
+			*l = append(*l, c12Live{AtUs: int64(rng.Pick(0, 0, 0, 1, 50, 500, 1000, 3000)), Skip: rng.Pick(0, 0, 1, 2, 3, 5, 8), Spec: d})
+			cur = &(*l)[len(*l)-1].Spec
+		} else {
+			sc.Next = append(sc.Next, c12Phase{Spec: &d, Clients: []c12Client{}, Live: []c12Live{}})
+			ph := &sc.Next[len(sc.Next)-1]
+			// (appending to sc.Next may move the earlier phases: take the pointers again)
+			phaseLive = []*[]c12Live{&sc.Live}
+			for k := range sc.Next {
+				phaseLive = append(phaseLive, &sc.Next[k].Live)
+			}
+			cur = ph.Spec
+		}
+	}
+	nPhase := 1 + len(sc.Next)
 
 	hosts := []string{"a.test", "a.test", "b.test", "a.test:8080", "c.test"}
 	methods := []string{"GET", "GET", "POST", "PUT", "DELETE"}
@@ -380,6 +655,8 @@ func c12Gen(rng *sim.Rand, tier string) interface{} {
 		methods = append(methods, "OST", "UT", "POST", "PUT")
 	}
 	var all []c12Req
+	pBody := []float64{0, 0.2, 0.5}[rng.Intn(3)]
+	pProxy := []float64{0, 0, 0.15, 0.4}[rng.Intn(4)]
 	drawVar := func(q *c12Req) {
 		q.IP = c12IPs[rng.Intn(len(c12IPs))]
 		q.Hdr = []c12KV{}
@@ -389,55 +666,115 @@ func c12Gen(rng *sim.Rand, tier string) interface{} {
 		if rng.Bool(0.35) {
 			q.Hdr = append(q.Hdr, c12KV{"X-W", rng.PickStr("a", "ab", "b")})
 		}
+		if rng.Bool(pBody) {
+			q.Body = rng.Pick(1, 4, 5, 8, 9, 16, 17, 40)
+			q.Chunk = rng.Bool(0.2)
+		}
+		if rng.Bool(pProxy) {
+			// the client IP the server works with comes from a proxy's header
+			switch rng.Intn(3) {
+			case 0:
+				q.Fwd = c12IPs[rng.Intn(len(c12IPs))]
+			case 1:
+				q.Fwd = c12IPs[rng.Intn(len(c12IPs))] + ", " + c12IPs[rng.Intn(len(c12IPs))]
+			default:
+				q.XReal = c12IPs[rng.Intn(len(c12IPs))]
+			}
+		}
 	}
-	nc := rng.Range(1, 4)
 	total := rng.Range(4, 28)
 	pRepeat := []float64{0.3, 0.6, 0.8}[rng.Intn(3)]
 	pHold := []float64{0, 0.2, 0.6}[rng.Intn(3)]
 	pNear := []float64{0, 0.15, 0.15, 0.4}[rng.Intn(4)]
-	sc.Clients = make([]c12Client, nc)
+	// requests are dealt to the phases in order
+	perPhase := make([]int, nPhase)
 	for i := 0; i < total; i++ {
-		q := c12Req{}
-		switch {
-		case len(all) > 0 && collide && rng.Bool(0.3):
-			// partner of an earlier request whose host+method concatenation coincides
-			e := all[rng.Intn(len(all))]
-			q.Host, q.Method, q.Path = e.Host, e.Method, e.Path
-			switch {
-			case e.Host == "a.test" && e.Method == "POST":
-				q.Host, q.Method = "a.testP", "OST"
-			case e.Host == "a.test" && e.Method == "PUT":
-				q.Host, q.Method = "a.testP", "UT"
-			case e.Host == "a.testP" && e.Method == "OST":
-				q.Host, q.Method = "a.test", "POST"
-			case e.Host == "a.testP" && e.Method == "UT":
-				q.Host, q.Method = "a.test", "PUT"
-			}
-		case len(all) > 0 && rng.Bool(pNear):
-			// near miss of an earlier request: same after a plausible key normalisation
-			e := all[rng.Intn(len(all))]
-			q.Host, q.Method, q.Path = c12NearVariant(rng, e.Host, e.Method, e.Path)
-			if rng.Bool(0.25) {
-				q.Host, q.Method, q.Path = c12NearVariant(rng, q.Host, q.Method, q.Path)
-			}
-		case len(all) > 0 && rng.Bool(pRepeat):
-			e := all[rng.Intn(len(all))]
-			q.Host, q.Method, q.Path = e.Host, e.Method, e.Path
-		default:
-			q.Host = hosts[rng.Intn(len(hosts))]
-			q.Method = methods[rng.Intn(len(methods))]
-			q.Path = c12ReqPath[rng.Intn(len(c12ReqPath))]
-		}
-		drawVar(&q)
-		q.GapUs = int64(rng.Pick(0, 0, 0, 1, 50, 1000))
-		if rng.Bool(pHold) {
-			q.Hold = rng.Range(1, 3)
-		}
-		all = append(all, q)
-		c := rng.Intn(nc)
-		sc.Clients[c].Reqs = append(sc.Clients[c].Reqs, q)
+		perPhase[rng.Intn(nPhase)]++
 	}
+	for ph := 0; ph < nPhase; ph++ {
+		nc := rng.Range(1, 4)
+		clients := make([]c12Client, nc)
+		for i := 0; i < perPhase[ph]; i++ {
+			q := c12Req{}
+			switch {
+			case len(all) > 0 && collide && rng.Bool(0.3):
+				// partner of an earlier request whose host+method concatenation coincides
+				e := all[rng.Intn(len(all))]
+				q.Host, q.Method, q.Path = e.Host, e.Method, e.Path
+				switch {
+				case e.Host == "a.test" && e.Method == "POST":
+					q.Host, q.Method = "a.testP", "OST"
+				case e.Host == "a.test" && e.Method == "PUT":
+					q.Host, q.Method = "a.testP", "UT"
+				case e.Host == "a.testP" && e.Method == "OST":
+					q.Host, q.Method = "a.test", "POST"
+				case e.Host == "a.testP" && e.Method == "UT":
+					q.Host, q.Method = "a.test", "PUT"
+				}
+			case len(all) > 0 && rng.Bool(pNear):
+				// near miss of an earlier request: same after a plausible key normalisation
+				e := all[rng.Intn(len(all))]
+				q.Host, q.Method, q.Path = c12NearVariant(rng, e.Host, e.Method, e.Path)
+				if rng.Bool(0.25) {
+					q.Host, q.Method, q.Path = c12NearVariant(rng, q.Host, q.Method, q.Path)
+				}
+			case len(all) > 0 && rng.Bool(pRepeat):
+				e := all[rng.Intn(len(all))]
+				q.Host, q.Method, q.Path = e.Host, e.Method, e.Path
+			default:
+				q.Host = hosts[rng.Intn(len(hosts))]
+				q.Method = methods[rng.Intn(len(methods))]
+				q.Path = c12ReqPath[rng.Intn(len(c12ReqPath))]
+			}
+			drawVar(&q)
+			q.GapUs = int64(rng.Pick(0, 0, 0, 1, 50, 1000))
+			if rng.Bool(pHold) {
+				q.Hold = rng.Range(1, 3)
+			}
+			all = append(all, q)
+			c := rng.Intn(nc)
+			clients[c].Reqs = append(clients[c].Reqs, q)
+		}
+		if ph == 0 {
+			sc.Clients = clients
+		} else {
+			sc.Next[ph-1].Clients = clients
+		}
+	}
+	sc.ValidateAll = rng.Bool(0.1)
 	return sc
+}
+
+// c12Specs lists every spec generation of a scenario in the order of application.
+func c12Specs(sc *c12Scenario) []*c12SpecD {
+	out := []*c12SpecD{&sc.c12SpecD}
+	for i := range sc.Live {
+		out = append(out, &sc.Live[i].Spec)
+	}
+	for k := range sc.Next {
+		if sc.Next[k].Spec != nil {
+			out = append(out, sc.Next[k].Spec)
+		}
+		for i := range sc.Next[k].Live {
+			out = append(out, &sc.Next[k].Live[i].Spec)
+		}
+	}
+	return out
+}
+
+// c12AllReqs calls f for every request of the scenario.
+func c12AllReqs(sc *c12Scenario, f func(q *c12Req)) {
+	each := func(cs []c12Client) {
+		for i := range cs {
+			for j := range cs[i].Reqs {
+				f(&cs[i].Reqs[j])
+			}
+		}
+	}
+	each(sc.Clients)
+	for k := range sc.Next {
+		each(sc.Next[k].Clients)
+	}
 }
 
 // c12Shrink proposes simplifications the generic array deletion cannot do.
@@ -454,58 +791,137 @@ func c12Shrink(sci interface{}) []interface{} {
 			out = append(out, c)
 		}
 	}
-	variant(func(c *c12Scenario) bool { ok := c.IPF != nil; c.IPF = nil; return ok })
-	for i := range sc.Rules {
-		i := i
-		variant(func(c *c12Scenario) bool { ok := c.Rules[i].IPF != nil; c.Rules[i].IPF = nil; return ok })
+	// a phase without a reload of its own is merged into its predecessor; a quiescent reload is dropped
+	for k := range sc.Next {
+		k := k
 		variant(func(c *c12Scenario) bool {
-			ok := c.Rules[i].HostRegexp != ""
-			c.Rules[i].HostRegexp = ""
-			return ok
+			if c.Next[k].Spec != nil {
+				return false
+			}
+			// phase without reload: its clients can run in the phase before
+			if k == 0 {
+				c.Clients = append(c.Clients, c.Next[k].Clients...)
+				c.Live = append(c.Live, c.Next[k].Live...)
+			} else {
+				c.Next[k-1].Clients = append(c.Next[k-1].Clients, c.Next[k].Clients...)
+				c.Next[k-1].Live = append(c.Next[k-1].Live, c.Next[k].Live...)
+			}
+			c.Next = append(c.Next[:k:k], c.Next[k+1:]...)
+			return true
 		})
-		variant(func(c *c12Scenario) bool { ok := c.Rules[i].Host != ""; c.Rules[i].Host = ""; return ok })
-		for j := range sc.Rules[i].Paths {
-			j := j
+		variant(func(c *c12Scenario) bool { ok := c.Next[k].Spec != nil; c.Next[k].Spec = nil; return ok })
+	}
+	for g := range c12Specs(sc) {
+		g := g
+		d := c12Specs(sc)[g]
+		variant(func(c *c12Scenario) bool { d := c12Specs(c)[g]; ok := d.IPF != nil; d.IPF = nil; return ok })
+		variant(func(c *c12Scenario) bool { d := c12Specs(c)[g]; ok := d.MaxBody != 0; d.MaxBody = 0; return ok })
+		if g > 0 {
+			variant(func(c *c12Scenario) bool { d := c12Specs(c)[g]; ok := d.CacheSize != 0; d.CacheSize = 0; return ok })
+			// the reload installs the spec that is already in force
 			variant(func(c *c12Scenario) bool {
-				p := &c.Rules[i].Paths[j]
-				ok := p.IPF != nil
-				p.IPF = nil
+				ds := c12Specs(c)
+				before, _ := json.Marshal(ds[g])
+				cs := ds[g].CacheSize
+				*ds[g] = c12CopySpec(ds[g-1])
+				ds[g].CacheSize = cs
+				after, _ := json.Marshal(ds[g])
+				return string(before) != string(after)
+			})
+		}
+		for i := range d.Rules {
+			i := i
+			variant(func(c *c12Scenario) bool {
+				d := c12Specs(c)[g]
+				ok := d.Rules[i].IPF != nil
+				d.Rules[i].IPF = nil
 				return ok
 			})
 			variant(func(c *c12Scenario) bool {
-				p := &c.Rules[i].Paths[j]
-				ok := p.Rewrite != ""
-				p.Rewrite = ""
+				d := c12Specs(c)[g]
+				ok := d.Rules[i].HostRegexp != ""
+				d.Rules[i].HostRegexp = ""
 				return ok
 			})
 			variant(func(c *c12Scenario) bool {
-				p := &c.Rules[i].Paths[j]
-				ok := p.MatchAll
-				p.MatchAll = false
+				d := c12Specs(c)[g]
+				ok := d.Rules[i].Host != ""
+				d.Rules[i].Host = ""
 				return ok
 			})
-			variant(func(c *c12Scenario) bool {
-				p := &c.Rules[i].Paths[j]
-				ok := p.Rewrite == "" && (p.Path != "" || p.Prefix != "" || p.Regexp != "")
-				p.Path, p.Prefix, p.Regexp = "", "", ""
-				return ok
-			})
+			for j := range d.Rules[i].Paths {
+				j := j
+				variant(func(c *c12Scenario) bool {
+					p := &c12Specs(c)[g].Rules[i].Paths[j]
+					ok := p.IPF != nil
+					p.IPF = nil
+					return ok
+				})
+				variant(func(c *c12Scenario) bool {
+					p := &c12Specs(c)[g].Rules[i].Paths[j]
+					ok := p.Rewrite != ""
+					p.Rewrite = ""
+					return ok
+				})
+				variant(func(c *c12Scenario) bool {
+					p := &c12Specs(c)[g].Rules[i].Paths[j]
+					ok := p.MatchAll
+					p.MatchAll = false
+					return ok
+				})
+				variant(func(c *c12Scenario) bool {
+					p := &c12Specs(c)[g].Rules[i].Paths[j]
+					ok := p.MaxBody != 0
+					p.MaxBody = 0
+					return ok
+				})
+				variant(func(c *c12Scenario) bool {
+					p := &c12Specs(c)[g].Rules[i].Paths[j]
+					ok := p.Rewrite == "" && (p.Path != "" || p.Prefix != "" || p.Regexp != "")
+					p.Path, p.Prefix, p.Regexp = "", "", ""
+					return ok
+				})
+			}
 		}
 	}
 	variant(func(c *c12Scenario) bool {
 		ok := false
-		for i := range c.Clients {
-			for j := range c.Clients[i].Reqs {
-				q := &c.Clients[i].Reqs[j]
-				if q.Hold != 0 || q.GapUs != 0 {
+		c12AllReqs(c, func(q *c12Req) {
+			if q.Hold != 0 || q.GapUs != 0 {
+				ok = true
+			}
+			q.Hold, q.GapUs = 0, 0
+		})
+		return ok
+	})
+	variant(func(c *c12Scenario) bool {
+		ok := false
+		c12AllReqs(c, func(q *c12Req) {
+			if q.Body != 0 || q.Chunk {
+				ok = true
+			}
+			q.Body, q.Chunk = 0, false
+		})
+		return ok
+	})
+	variant(func(c *c12Scenario) bool {
+		ok := false
+		lives := []*[]c12Live{&c.Live}
+		for k := range c.Next {
+			lives = append(lives, &c.Next[k].Live)
+		}
+		for _, l := range lives {
+			for i := range *l {
+				if (*l)[i].AtUs != 0 || (*l)[i].Skip != 0 {
 					ok = true
 				}
-				q.Hold, q.GapUs = 0, 0
+				(*l)[i].AtUs, (*l)[i].Skip = 0, 0
 			}
 		}
 		return ok
 	})
 	variant(func(c *c12Scenario) bool { ok := c.CacheSize != 16; c.CacheSize = 16; return ok })
+	variant(func(c *c12Scenario) bool { ok := !c.ValidateAll; c.ValidateAll = true; return ok })
 	return out
 }
 
@@ -523,10 +939,13 @@ func c12IPFMap(f *c12IPF) map[string]interface{} {
 }
 
 // c12SpecText renders the scenario as an HTTPServer spec (JSON, which is YAML).
-func c12SpecText(sc *c12Scenario, cacheSize int) string {
+func c12SpecText(sc *c12SpecD, cacheSize int) string {
 	m := map[string]interface{}{"kind": "HTTPServer", "name": "c12", "port": 10080, "keepAlive": true, "https": false, "cacheSize": cacheSize}
 	if sc.IPF != nil {
 		m["ipFilter"] = c12IPFMap(sc.IPF)
+	}
+	if sc.MaxBody != 0 {
+		m["clientMaxBodySize"] = sc.MaxBody
 	}
 	rules := []interface{}{}
 	for _, ru := range sc.Rules {
@@ -578,6 +997,9 @@ func c12SpecText(sc *c12Scenario, cacheSize int) string {
 			if p.IPF != nil {
 				pm["ipFilter"] = c12IPFMap(p.IPF)
 			}
+			if p.MaxBody != 0 {
+				pm["clientMaxBodySize"] = p.MaxBody
+			}
 			paths = append(paths, pm)
 		}
 		rm["paths"] = paths
@@ -590,8 +1012,11 @@ func c12SpecText(sc *c12Scenario, cacheSize int) string {
 
 // c12Valid rejects scenarios (only shrunk ones can be such) whose spec the
 // documented constraints forbid or in which backends are no longer unique.
-func c12Valid(sc *c12Scenario) bool {
+func c12Valid(sc *c12SpecD) bool {
 	seen := map[string]bool{}
+	if sc.CacheSize < 0 || sc.CacheSize > 1024 {
+		return false
+	}
 	for _, ru := range sc.Rules {
 		if ru.HostRegexp != "" {
 			if _, err := regexp.Compile(ru.HostRegexp); err != nil {
@@ -604,6 +1029,9 @@ func c12Valid(sc *c12Scenario) bool {
 			}
 			seen[p.Backend] = true
 			if p.Rewrite != "" && p.Path == "" && p.Prefix == "" && p.Regexp == "" {
+				return false
+			}
+			if (p.Path != "" && p.Path[0] != '/') || (p.Prefix != "" && p.Prefix[0] != '/') {
 				return false
 			}
 			if p.Regexp != "" {
@@ -698,6 +1126,19 @@ func c12MethodMatches(p *c12Path, m string) bool {
 	return false
 }
 
+// clientIP (classifier only): the address a proxy reported (first entry of
+// X-Forwarded-For, else X-Real-Ip), else the transport address. All generated
+// addresses are public ones.
+func (q *c12Req) clientIP() string {
+	if q.Fwd != "" {
+		return strings.TrimSpace(strings.Split(q.Fwd, ",")[0])
+	}
+	if q.XReal != "" {
+		return q.XReal
+	}
+	return q.IP
+}
+
 func c12HdrGet(q *c12Req, key string) string {
 	for _, kv := range q.Hdr {
 		if kv.K == key {
@@ -750,10 +1191,11 @@ type c12Why struct {
 	Level     string // for 403: server | rule | path
 	Rule      int    // deciding rule (403 by rule/path, or route)
 	ViaHeader bool   // the deciding path is header-conditioned
+	TooLarge  bool   // routed, but the body exceeds the documented effective clientMaxBodySize
 }
 
-func c12Model(sc *c12Scenario, q *c12Req) c12Why {
-	if !c12IPFAllows(sc.IPF, q.IP) {
+func c12Model(sc *c12SpecD, q *c12Req) c12Why {
+	if !c12IPFAllows(sc.IPF, q.clientIP()) {
 		return c12Why{Status: 403, Level: "server", Rule: -1}
 	}
 	hdrMis, methMis := false, false
@@ -762,7 +1204,7 @@ func c12Model(sc *c12Scenario, q *c12Req) c12Why {
 		if !c12HostMatches(ru, q.Host) {
 			continue
 		}
-		if !c12IPFAllows(ru.IPF, q.IP) {
+		if !c12IPFAllows(ru.IPF, q.clientIP()) {
 			return c12Why{Status: 403, Level: "rule", Rule: i}
 		}
 		for j := range ru.Paths {
@@ -778,10 +1220,19 @@ func c12Model(sc *c12Scenario, q *c12Req) c12Why {
 				hdrMis = true
 				continue
 			}
-			if !c12IPFAllows(p.IPF, q.IP) {
+			if !c12IPFAllows(p.IPF, q.clientIP()) {
 				return c12Why{Status: 403, Level: "path", Rule: i, Backend: p.Backend, ViaHeader: len(p.Headers) > 0}
 			}
-			return c12Why{Backend: p.Backend, Rule: i, ViaHeader: len(p.Headers) > 0}
+			// doc/reference/controllers.md: the entry's clientMaxBodySize, "will use the option of the
+			// HTTP server if not set", default 4MB, -1 = any size; larger bodies are discarded
+			limit := p.MaxBody
+			if limit == 0 {
+				limit = sc.MaxBody
+			}
+			if limit == 0 {
+				limit = 4 * 1024 * 1024
+			}
+			return c12Why{Backend: p.Backend, Rule: i, ViaHeader: len(p.Headers) > 0, TooLarge: limit >= 0 && int64(q.Body) > limit}
 		}
 	}
 	switch {
@@ -860,12 +1311,29 @@ func c12HTTPReq(q *c12Req, id string) *http.Request {
 		}
 	}
 	h.Set("X-C12-Id", id)
+	if q.Fwd != "" {
+		h.Set("X-Forwarded-For", q.Fwd)
+	}
+	if q.XReal != "" {
+		h.Set("X-Real-Ip", q.XReal)
+	}
 	u, err := url.ParseRequestURI(q.Path) // what net/http's server does with the request target
 	if err != nil {
 		u = &url.URL{Path: q.Path}
 	}
-	return &http.Request{Method: q.Method, URL: u, Host: q.Host, Header: h, RemoteAddr: q.IP + ":40000",
+	req := &http.Request{Method: q.Method, URL: u, Host: q.Host, Header: h, RemoteAddr: q.IP + ":40000",
 		Body: http.NoBody, Proto: "HTTP/1.1", ProtoMajor: 1, ProtoMinor: 1, RequestURI: q.Path}
+	if n := q.Body; n > 0 && n <= 4096 {
+		req.Body = io.NopCloser(strings.NewReader(strings.Repeat("z", n)))
+		if q.Chunk {
+			req.ContentLength = -1
+			req.TransferEncoding = []string{"chunked"}
+		} else {
+			req.ContentLength = int64(n)
+			h.Set("Content-Length", fmt.Sprint(n))
+		}
+	}
+	return req
 }
 
 func (q *c12Req) String() string {
@@ -873,7 +1341,21 @@ func (q *c12Req) String() string {
 	for _, kv := range q.Hdr {
 		hs = append(hs, kv.K+"="+kv.V)
 	}
-	return fmt.Sprintf("%s %s%s [%s] from %s", q.Method, q.Host, q.Path, strings.Join(hs, ","), q.IP)
+	body := ""
+	if q.Body > 0 {
+		body = fmt.Sprintf(" body=%d", q.Body)
+		if q.Chunk {
+			body += "(chunked)"
+		}
+	}
+	from := q.IP
+	if q.Fwd != "" {
+		from += " X-Forwarded-For=" + q.Fwd
+	}
+	if q.XReal != "" {
+		from += " X-Real-Ip=" + q.XReal
+	}
+	return fmt.Sprintf("%s %s%s [%s] from %s%s", q.Method, q.Host, q.Path, strings.Join(hs, ","), from, body)
 }
 
 // c12Same: the mux legitimately sees the same (host, method, decoded path).
@@ -900,12 +1382,14 @@ func c12Alias(p, q *c12Req) bool {
 type c12Hist struct {
 	id  string
 	q   *c12Req
+	gen int    // generation in force when the request started; exp and why are that generation's
 	exp c12Out
 	why c12Why
 }
 
 type c12Flight struct {
 	q     *c12Req
+	gen   int
 	exp   c12Out
 	why   c12Why
 	prior int // number of history entries whose search ran before this request's search
@@ -918,11 +1402,13 @@ var c12CodePath = map[string]string{
 	"C12.cached-status-over-403": "mux.go search(): an allowed client's miss cached methodNotAllowed/notFound (l.598-604); the cache-hit branch returns a cached status code at once (l.541-544) without consulting the server filter (l.554) or the rule filters (l.563), which exist only on the miss path",
 	"C12.ipfilter-bypass": "mux.go search(): on a hit only r.path.ipFilterChain is consulted (l.545-551) = server + the route's own rule + the path; on a miss EVERY host-matching rule visited before the route answers 403 if its own filter denies (l.559-565)",
 	"C12.key-collision": "mux.go getRouteFromCache/putRouteToCache (l.149, l.159): key = stringtool.Cat(host, method, path) without separators, so two different (host, method, path) triples share one entry",
-	"C12.other":         "cache-hit/miss handling in mux.go search() (l.532-605) / key construction (l.147-162)",
+	"C12.reload":        "mux.go reload(): every muxInstance must start with a route cache of its own (lru.NewARC, filled only by its own search()); a cache object, *route, *MuxPath or ipfilter that is reachable from the instance published by m.inst.Store(inst) but was built for or filled under an earlier spec serves the earlier generation's answer",
+	"C12.body-limit":    "mux.go serveHTTP(): maxBodySize := route.path.clientMaxBodySize, else mi.spec.ClientMaxBodySize - taken from the *MuxPath the (cached) route points to",
+	"C12.other":         "cache-hit/miss handling in mux.go search() / key construction (getRouteFromCache, putRouteToCache)",
 }
 
 func c12PathCodeKey(class string) string {
-	for _, k := range []string{"C12.header-shadow", "C12.cached-status-over-403", "C12.ipfilter-bypass", "C12.key-collision"} {
+	for _, k := range []string{"C12.header-shadow", "C12.cached-status-over-403", "C12.ipfilter-bypass", "C12.key-collision", "C12.reload", "C12.body-limit"} {
 		if strings.HasPrefix(class, k) {
 			return k
 		}
@@ -936,7 +1422,7 @@ func c12PathCodeKey(class string) string {
 // served ("precedent": only such an answer can sit in a cache filled by
 // earlier lookups). A mismatch without precedent is never given one of the
 // specific classes.
-func c12Classify(sc *c12Scenario, missing map[string]bool, q *c12Req, exp, got c12Out, why c12Why, modelOK bool, prior []c12Hist) (string, string) {
+func c12Classify(sc *c12SpecD, missing map[string]bool, q *c12Req, exp, got c12Out, why c12Why, modelOK bool, prior []c12Hist) (string, string) {
 	sameTriple, sameKey := 0, 0
 	var partner *c12Hist
 	type ent struct {
@@ -1035,32 +1521,60 @@ func c12Classify(sc *c12Scenario, missing map[string]bool, q *c12Req, exp, got c
 	if !modelOK {
 		return "C12.other", "explanatory model disagrees with the cache-less twin: not classified"
 	}
+	if (exp.Status == http.StatusRequestEntityTooLarge) != (got.Status == http.StatusRequestEntityTooLarge) {
+		return "C12.body-limit", fmt.Sprintf("body of %d bytes: the cache-less server answers %v, the cached one %v; earlier requests with the same (host,method,path) in this generation: %d", q.Body, exp, got, sameTriple)
+	}
 	return "C12.other", fmt.Sprintf("earlier requests with the same (host,method,path): %d; none of them legitimately received what the cached mux served, or the pattern is none of the known ones", sameTriple)
+}
+
+// c12Gen0 is one spec generation prepared for both muxes.
+type c12Gen0 struct {
+	d         *c12SpecD
+	cacheSize int // effective size of the cached mux in this generation
+	text      string
+	super     *supervisor.Spec
+	obj       *Spec
 }
 
 func c12Exec(r *sim.Run, sci interface{}) {
 	sc := sci.(*c12Scenario)
 	r.MultiClass = true
 	nreq := 0
-	for _, c := range sc.Clients {
-		nreq += len(c.Reqs)
-	}
-	if sc.CacheSize <= 0 || nreq == 0 || !c12Valid(sc) {
+	c12AllReqs(sc, func(*c12Req) { nreq++ })
+	if sc.CacheSize <= 0 || nreq == 0 {
 		return
 	}
-	// One validated spec object serves both muxes: reload() reads cacheSize
-	// only while it builds the instance, so the twin is reloaded with the
-	// field at 0 and the system under test with the drawn size (NewSpec costs
-	// more than the whole rest of a run; the white-box probe below checks that
-	// exactly one of the two instances owns a cache).
-	superSpec, err := supervisor.NewSpec(c12SpecText(sc, sc.CacheSize))
-	if err != nil || superSpec == nil {
-		r.Probe("c12.spec_rejected")
-		return
-	}
-	objSpec, ok := superSpec.ObjectSpec().(*Spec)
-	if !ok {
-		return
+	// Every generation is prepared before the first request. One spec object
+	// serves both muxes: reload() reads cacheSize only while it builds the
+	// instance, so the twin is reloaded with the field at 0 and the system
+	// under test with the drawn size (NewSpec costs more than the whole rest of
+	// a run; the white-box probe below checks that exactly one of the two
+	// instances owns a cache).
+	var gens []*c12Gen0
+	size := sc.CacheSize
+	for gi, d := range c12Specs(sc) {
+		if gi > 0 && d.CacheSize > 0 {
+			size = d.CacheSize
+		}
+		if !c12Valid(d) {
+			return
+		}
+		g := &c12Gen0{d: d, cacheSize: size, text: c12SpecText(d, size)}
+		var err error
+		if gi == 0 || sc.ValidateAll {
+			g.super, err = supervisor.NewSpec(g.text)
+		} else {
+			g.super, err = supervisor.C12Decode(g.text)
+		}
+		if err != nil || g.super == nil {
+			r.Probe("c12.spec_rejected")
+			return
+		}
+		var ok bool
+		if g.obj, ok = g.super.ObjectSpec().(*Spec); !ok {
+			return
+		}
+		gens = append(gens, g)
 	}
 	missing := map[string]bool{}
 	for _, b := range sc.Missing {
@@ -1068,25 +1582,90 @@ func c12Exec(r *sim.Run, sci interface{}) {
 	}
 	mapC := &c12Mapper{missing: missing, handlers: map[string]*c12Handler{}}
 	mapT := &c12Mapper{missing: missing, handlers: map[string]*c12Handler{}}
-	objSpec.CacheSize = 0
 	mT := newMux(httpstat.New(), httpstat.NewTopN(10), mapT)
-	mT.reload(superSpec, mapT)
-	objSpec.CacheSize = uint32(sc.CacheSize)
 	mC := newMux(httpstat.New(), httpstat.NewTopN(10), mapC)
-	mC.reload(superSpec, mapC)
-	instC := mC.inst.Load().(*muxInstance)
-	if instC.cache == nil || mT.inst.Load().(*muxInstance).cache != nil {
-		r.Probe("c12.cache_not_as_configured")
-	} else {
-		r.Probe("c12.cache_on_in_sut_off_in_twin")
+
+	// refs[g]: the cache-less server's instance of generation g (never touched
+	// by a later reload, so it answers "what does generation g say" at any time).
+	var refs []*muxInstance
+	var instC *muxInstance
+	begun, done := -1, -1 // generation whose reload of the cached mux has begun / has returned
+	inflight, maxInflight := 0, 0
+	var sig strings.Builder
+	reload := func(live bool) {
+		g := len(refs)
+		if g >= len(gens) {
+			return
+		}
+		gn := gens[g]
+		kind := "quiescent"
+		if live {
+			kind = "in_flight"
+		}
+		if g > 0 {
+			r.Fault("reload." + kind)
+			prev := gens[g-1]
+			rulesSame := fmt.Sprint(c12SpecText(&c12SpecD{Rules: prev.d.Rules}, 0)) == fmt.Sprint(c12SpecText(&c12SpecD{Rules: gn.d.Rules}, 0))
+			switch {
+			case prev.text == gn.text:
+				r.Probe("c12.reload.identical_spec")
+			case rulesSame && prev.cacheSize == gn.cacheSize:
+				r.Probe("c12.reload.only_server_level_fields_differ")
+			}
+			if prev.cacheSize != gn.cacheSize {
+				r.Probe("c12.reload.cache_size_changed")
+			}
+			if live && inflight > 0 {
+				r.Probe("c12.reload.begins_with_request_in_flight")
+			}
+			r.Eventf("reload %s -> generation %d: %s", kind, g, gn.text)
+			fmt.Fprintf(&sig, "|R%d%s:%s|", g, kind[:1], gn.text)
+		}
+		gn.obj.CacheSize = 0
+		mT.reload(gn.super, mapT)
+		gn.obj.CacheSize = uint32(gn.cacheSize)
+		ref := mT.inst.Load().(*muxInstance)
+		refs = append(refs, ref)
+		begun = g
+		mC.reload(gn.super, mapC)
+		done = g
+		if live && inflight > 0 {
+			r.Probe("c12.reload.returns_with_request_in_flight")
+		}
+		instC = mC.inst.Load().(*muxInstance)
+		if instC.cache == nil || ref.cache != nil {
+			r.Probe("c12.cache_not_as_configured")
+		} else {
+			r.Probe("c12.cache_on_in_sut_off_in_twin")
+		}
+	}
+	reload(false)
+	if len(refs) == 0 {
+		return
 	}
 
 	var hist []c12Hist
 	flights := map[string]*c12Flight{}
-	inflight, maxInflight := 0, 0
 	reported := map[string]bool{}
-	var sig strings.Builder
 	potentialHit, variedHit, mismatches := 0, 0, 0
+
+	// ask: what does the cache-less server of generation g answer
+	ask := func(g int, q *c12Req, id string) c12Out {
+		rec := httptest.NewRecorder()
+		refs[g].serveHTTP(rec, c12HTTPReq(q, id))
+		return c12OutOf(rec)
+	}
+	modelAgrees := func(why c12Why, exp c12Out) bool {
+		switch {
+		case why.Status == 0 && missing[why.Backend]:
+			return exp.Status == 503 && exp.Backend == ""
+		case why.Status == 0 && why.TooLarge:
+			return exp.Status == 413 && exp.Backend == ""
+		case why.Status == 0:
+			return exp.Status == 200 && exp.Backend == why.Backend
+		}
+		return exp.Status == why.Status && exp.Backend == ""
+	}
 
 	stamp := func(id string) *c12Flight {
 		f := flights[id]
@@ -1095,12 +1674,13 @@ func c12Exec(r *sim.Run, sci interface{}) {
 		}
 		f.done = true
 		f.prior = len(hist)
-		hist = append(hist, c12Hist{id: id, q: f.q, exp: f.exp, why: f.why})
+		hist = append(hist, c12Hist{id: id, q: f.q, gen: f.gen, exp: f.exp, why: f.why})
 		return f
 	}
 	mapC.onHandle = func(id string, _ bool) {
-		// no gate lies between the cache lookup of search() and this point:
-		// the order of these stamps is the order of the cache operations
+		// without statement gates no gate lies between the cache lookup of
+		// search() and this point: the order of these stamps is the order of
+		// the cache operations (it only serves the classifier)
 		f := stamp(id)
 		if f == nil {
 			return
@@ -1110,153 +1690,320 @@ func c12Exec(r *sim.Run, sci interface{}) {
 		}
 	}
 
-	specJSON := c12SpecText(sc, sc.CacheSize)
-	for ci := range sc.Clients {
-		ci := ci
-		reqs := sc.Clients[ci].Reqs
-		r.Go(fmt.Sprintf("client%d", ci), func() {
-			for qi := range reqs {
-				if r.Aborted() {
-					return
-				}
-				q := &reqs[qi]
-				if q.Host == "" || q.Method == "" || q.Path == "" || q.IP == "" {
-					continue
-				}
-				q.dec = q.Path
-				if u, err := url.ParseRequestURI(q.Path); err == nil {
-					q.dec = u.Path
-				}
-				if strings.HasPrefix(q.dec, "/.well-known/") {
-					continue
-				}
-				r.Sleep(time.Duration(q.GapUs) * time.Microsecond)
-				id := fmt.Sprintf("c%d.%d", ci, qi)
-
-				// the cache-less twin and the explanatory model
-				recT := httptest.NewRecorder()
-				mT.ServeHTTP(recT, c12HTTPReq(q, id))
-				exp := c12OutOf(recT)
-				why := c12Model(sc, q)
-				modelOK := true
-				switch {
-				case why.Status == 0 && missing[why.Backend]:
-					modelOK = exp.Status == 503 && exp.Backend == ""
-				case why.Status == 0:
-					modelOK = exp.Status == 200 && exp.Backend == why.Backend
-				default:
-					modelOK = exp.Status == why.Status && exp.Backend == ""
-				}
-				if !modelOK {
-					r.Probe("c12.model_disagrees_twin")
-				}
-
-				// the cached mux
-				hold := q.Hold
-				if hold < 0 || hold > 8 {
-					hold = 0
-				}
-				flights[id] = &c12Flight{q: q, exp: exp, why: why, hold: hold}
-				inflight++
-				if inflight > maxInflight {
-					maxInflight = inflight
-				}
-				recC := httptest.NewRecorder()
-				mC.ServeHTTP(recC, c12HTTPReq(q, id))
-				f := stamp(id) // not routed to a handler: still the same atomic section as its search
-				inflight--
-				got := c12OutOf(recC)
-				prior := hist[:f.prior]
-
-				// probes
-				same, varied, coll, near, nearDiff := false, false, false, false, false
-				for i := range prior {
-					p := prior[i].q
-					if c12Same(p, q) {
-						same = true
-						if p.IP != q.IP || fmt.Sprint(p.Hdr) != fmt.Sprint(q.Hdr) {
-							varied = true
-						}
-					} else if c12Alias(p, q) {
-						if p.Host+p.Method+p.dec == q.Host+q.Method+q.dec {
-							coll = true
-						} else {
-							near = true
-							if prior[i].exp != exp {
-								nearDiff = true
-							}
-						}
-					}
-				}
-				if same {
-					potentialHit++
-					r.Probe("c12.repeat_of_earlier_triple")
-				}
-				if varied {
-					variedHit++
-					r.Probe("c12.repeat_with_other_headers_or_ip")
-				}
-				if coll {
-					r.Probe("c12.colliding_concatenation_in_history")
-				}
-				if near {
-					r.Probe("c12.near_variant_in_history")
-				}
-				if nearDiff {
-					r.Probe("c12.near_variant_with_other_nocache_answer")
-				}
-				r.Probe(fmt.Sprintf("c12.nocache_status_%d", exp.Status))
-				if exp.Status == 403 {
-					r.Probe("c12.nocache_403_by_" + why.Level)
-				}
-				if why.ViaHeader {
-					r.Probe("c12.decided_by_header_conditioned_path")
-				}
-				if exp.Backend != "" && exp.Path != q.dec {
-					r.Probe("c12.path_rewritten")
-				}
-				if instC.cache != nil && instC.cache.Len() >= sc.CacheSize && len(hist) > sc.CacheSize {
-					r.Probe("c12.cache_full")
-				}
-
-				r.Eventf("%s %v -> nocache=%v cached=%v", id, q, exp, got)
-				fmt.Fprintf(&sig, "%s%s%s>%v/%v;", q.Host, q.Method, q.Path, exp, got)
-				if got == exp {
-					continue
-				}
-				mismatches++
-				class, facts := c12Classify(sc, missing, q, exp, got, why, modelOK, prior)
-				r.Probe("c12.mismatch." + class)
-				if reported[class] {
-					continue
-				}
-				reported[class] = true
-				var hs []string
-				for i := range prior {
-					p := prior[i]
-					if c12Same(p.q, q) || c12Alias(p.q, q) {
-						hs = append(hs, fmt.Sprintf("{%v => nocache %v}", p.q, p.exp))
-					}
-				}
-				if len(hs) > 6 {
-					hs = hs[len(hs)-6:]
-				}
-				r.Violate(class, "request {%v}: mux with cacheSize=%d answered %v, the same mux with cacheSize=0 answers %v\nfacts: %s\nearlier requests sharing the cache key (in cache order): %s\ncode path: %s\nspec: %s",
-					q, sc.CacheSize, got, exp, facts, strings.Join(hs, " "), c12CodePath[c12PathCodeKey(class)], specJSON)
+	client := func(pi, ci int, reqs []c12Req) {
+		for qi := range reqs {
+			if r.Aborted() {
+				return
 			}
-		})
+			q := &reqs[qi]
+			if q.Host == "" || q.Method == "" || q.Path == "" || q.IP == "" {
+				continue
+			}
+			q.dec = q.Path
+			if u, err := url.ParseRequestURI(q.Path); err == nil {
+				q.dec = u.Path
+			}
+			if strings.HasPrefix(q.dec, "/.well-known/") {
+				continue
+			}
+			r.Sleep(time.Duration(q.GapUs) * time.Microsecond)
+			id := fmt.Sprintf("p%d.c%d.%d", pi, ci, qi)
+
+			// the cache-less twin of the generation in force and the explanatory
+			// model (asking may pass gates in statement-gate runs: ask again if a
+			// reload of the cached mux returned meanwhile)
+			lo := done
+			exp := ask(lo, q, id)
+			for lo != done {
+				lo = done
+				exp = ask(lo, q, id)
+			}
+			why := c12Model(gens[lo].d, q)
+			modelOK := modelAgrees(why, exp)
+			if !modelOK {
+				r.Probe("c12.model_disagrees_twin")
+			}
+
+			// the cached mux; lo reloads have returned by now (no gate since the loop above)
+			hold := q.Hold
+			if hold < 0 || hold > 8 {
+				hold = 0
+			}
+			flights[id] = &c12Flight{q: q, gen: lo, exp: exp, why: why, hold: hold}
+			inflight++
+			if inflight > maxInflight {
+				maxInflight = inflight
+			}
+			insideReload := begun > done
+			recC := httptest.NewRecorder()
+			mC.ServeHTTP(recC, c12HTTPReq(q, id))
+			hi := begun // reloads begun by the time the answer is complete
+			insideReload = insideReload && begun > done && hi == lo+1
+			f := stamp(id) // not routed to a handler: still the same atomic section as its search
+			inflight--
+			got := c12OutOf(recC)
+			// history of the same generation (the route cache of a generation starts empty)
+			var prior []c12Hist
+			crossGen, staleSensitive := false, false
+			var stalePrec *c12Hist
+			for i := 0; i < f.prior; i++ {
+				h := hist[i]
+				switch {
+				case h.gen == lo:
+					prior = append(prior, h)
+				case h.gen < lo && c12Same(h.q, q):
+					crossGen = true
+					if h.exp != exp {
+						staleSensitive = true
+					}
+					if h.exp == got {
+						stalePrec = &hist[i]
+					}
+				}
+			}
+			if crossGen {
+				r.Probe("c12.req.repeats_triple_of_earlier_generation")
+			}
+			if staleSensitive {
+				r.Probe("c12.req.repeats_triple_whose_answer_the_reload_changed")
+			}
+
+			// answers of the later generations the request may have seen
+			exps := []c12Out{exp}
+			accepted, seenGen := got == exp, lo
+			differ := false
+			for g := lo + 1; g <= hi; g++ {
+				e := ask(g, q, id)
+				exps = append(exps, e)
+				if e != exp {
+					differ = true
+				}
+				if !accepted && e == got {
+					accepted, seenGen = true, g
+				}
+			}
+			if hi > lo {
+				r.Probe("c12.req.overlaps_reload")
+				if insideReload {
+					r.Probe("c12.req.started_and_finished_inside_one_reload")
+				}
+				if differ {
+					r.Probe("c12.req.overlaps_reload_generations_answer_differently")
+					if accepted && seenGen == lo {
+						r.Probe("c12.req.overlap_served_by_old_generation")
+					} else if accepted {
+						r.Probe("c12.req.overlap_served_by_new_generation")
+					}
+				}
+			}
+			if lo > 0 {
+				r.Probe("c12.req.started_after_reload")
+			}
+
+			// probes
+			same, varied, coll, near, nearDiff := false, false, false, false, false
+			for i := range prior {
+				p := prior[i].q
+				if c12Same(p, q) {
+					same = true
+					if p.clientIP() != q.clientIP() || fmt.Sprint(p.Hdr) != fmt.Sprint(q.Hdr) {
+						varied = true
+					}
+				} else if c12Alias(p, q) {
+					if p.Host+p.Method+p.dec == q.Host+q.Method+q.dec {
+						coll = true
+					} else {
+						near = true
+						if prior[i].exp != exp {
+							nearDiff = true
+						}
+					}
+				}
+			}
+			if same {
+				potentialHit++
+				r.Probe("c12.repeat_of_earlier_triple")
+			}
+			if varied {
+				variedHit++
+				r.Probe("c12.repeat_with_other_headers_or_ip")
+			}
+			if coll {
+				r.Probe("c12.colliding_concatenation_in_history")
+			}
+			if near {
+				r.Probe("c12.near_variant_in_history")
+			}
+			if nearDiff {
+				r.Probe("c12.near_variant_with_other_nocache_answer")
+			}
+			r.Probe(fmt.Sprintf("c12.nocache_status_%d", exp.Status))
+			if exp.Status == 403 {
+				r.Probe("c12.nocache_403_by_" + why.Level)
+			}
+			if why.ViaHeader {
+				r.Probe("c12.decided_by_header_conditioned_path")
+			}
+			if exp.Backend != "" && exp.Path != q.dec {
+				r.Probe("c12.path_rewritten")
+			}
+			if q.Fwd != "" || q.XReal != "" {
+				r.Probe("c12.req.client_ip_from_proxy_header")
+				bare := *q
+				bare.Fwd, bare.XReal = "", ""
+				if wt := c12Model(gens[lo].d, &bare); same && (wt.Status == 403) != (why.Status == 403) {
+					// a lookup that judged the transport address instead would answer differently
+					r.Probe("c12.repeat_where_header_ip_and_transport_ip_are_judged_differently")
+				}
+			}
+			if q.Body > 0 {
+				r.Probe("c12.req.with_body")
+				if q.Chunk {
+					r.Probe("c12.req.with_chunked_body")
+				}
+				if same && exp.Status == 413 {
+					r.Probe("c12.repeat_of_earlier_triple_answered_413")
+				}
+			}
+			if ic := instC; ic != nil && ic.cache != nil && ic.cache.Len() >= gens[done].cacheSize && len(prior) > gens[done].cacheSize {
+				r.Probe("c12.cache_full")
+			}
+
+			if hi > lo {
+				r.Eventf("%s %v -> generations %d..%d nocache=%v cached=%v", id, q, lo, hi, exps, got)
+			} else {
+				r.Eventf("%s %v -> nocache=%v cached=%v", id, q, exp, got)
+			}
+			fmt.Fprintf(&sig, "%s%s%s>%v/%v;", q.Host, q.Method, q.Path, exp, got)
+			if accepted {
+				continue
+			}
+			mismatches++
+			// an answer that an older generation gives (and none of lo..hi)
+			staleGen := -1
+			for g := lo - 1; g >= 0 && staleGen < 0; g-- {
+				if ask(g, q, id) == got {
+					staleGen = g
+				}
+			}
+			// Only a request of the SAME generation that shares the key (same
+			// triple, or an alias of it) can have put something into this
+			// generation's cache: if none of them was answered like this, and an
+			// older generation answers like this (or has at least seen the
+			// triple, which this generation has not), the wrong answer is state
+			// that survived the reload.
+			sameInGen, explainedInGen := false, false
+			for i := range prior {
+				if c12Same(prior[i].q, q) {
+					sameInGen = true
+				}
+				if (c12Same(prior[i].q, q) || c12Alias(prior[i].q, q)) && prior[i].exp == got {
+					explainedInGen = true // an entry legitimately cached for that request would be served like this
+				}
+			}
+			staleFacts := func() string {
+				t := "the answer is that of no single generation (state of an older generation judged with fields of the new one?)"
+				if staleGen >= 0 {
+					t = fmt.Sprintf("the answer is what generation %d gives to this request", staleGen)
+				}
+				if stalePrec != nil {
+					t += fmt.Sprintf("; request {%v} was answered so in generation %d, before the reload(s)", stalePrec.q, stalePrec.gen)
+				}
+				return t
+			}
+			class, facts := "", ""
+			switch {
+			case hi > lo && staleGen >= 0:
+				class, facts = "C12.reload.stale-generation", fmt.Sprintf("the request overlapped the reload(s) to generation(s) %d..%d; %s", lo+1, hi, staleFacts())
+			case hi > lo && explainedInGen:
+				// an earlier request of generation lo with this key was answered so: looks like a defect inside that generation
+				class, facts = c12Classify(gens[lo].d, missing, q, exp, got, why, modelOK, prior)
+			case hi > lo:
+				class = "C12.reload.overlap-neither-generation"
+				facts = fmt.Sprintf("the request overlapped the reload(s) to generation(s) %d..%d and is answered like none of the generations 0..%d", lo+1, hi, hi)
+			case !explainedInGen && (staleGen >= 0 || (crossGen && !sameInGen)):
+				class, facts = "C12.reload.stale-generation", fmt.Sprintf("no earlier request of generation %d with this cache key was answered so; %s", lo, staleFacts())
+			default:
+				class, facts = c12Classify(gens[lo].d, missing, q, exp, got, why, modelOK, prior)
+			}
+			r.Probe("c12.mismatch." + class)
+			if reported[class] {
+				continue
+			}
+			reported[class] = true
+			var hs []string
+			for i := 0; i < f.prior; i++ {
+				p := hist[i]
+				if c12Same(p.q, q) || c12Alias(p.q, q) {
+					hs = append(hs, fmt.Sprintf("{gen %d: %v => nocache %v}", p.gen, p.q, p.exp))
+				}
+			}
+			if len(hs) > 6 {
+				hs = hs[len(hs)-6:]
+			}
+			window := fmt.Sprintf("generation %d", lo)
+			if hi > lo {
+				window = fmt.Sprintf("generations %d..%d (reload in flight)", lo, hi)
+			}
+			specs := ""
+			for g := 0; g <= hi && g < len(gens); g++ {
+				if g == staleGen || g >= lo {
+					specs += fmt.Sprintf("\nspec of generation %d: %s", g, gens[g].text)
+				}
+			}
+			r.Violate(class, "request {%v} in %s: mux with cacheSize=%d answered %v, the same mux with cacheSize=0 answers %v\nfacts: %s\nearlier requests sharing the cache key (in cache order): %s\ncode path: %s%s",
+				q, window, gens[lo].cacheSize, got, exps, facts, strings.Join(hs, " "), c12CodePath[c12PathCodeKey(class)], specs)
+		}
 	}
-	r.WaitTasks()
+
+	phases := append([]c12Phase{{Clients: sc.Clients, Live: sc.Live}}, sc.Next...)
+	for pi := range phases {
+		ph := &phases[pi]
+		if pi > 0 && ph.Spec != nil {
+			reload(false) // quiescent: every task of the previous phase is done
+		}
+		for ci := range ph.Clients {
+			ci := ci
+			reqs := ph.Clients[ci].Reqs
+			r.Go(fmt.Sprintf("p%d.client%d", pi, ci), func() { client(pi, ci, reqs) })
+		}
+		if len(ph.Live) > 0 {
+			lives := ph.Live
+			r.Go(fmt.Sprintf("p%d.reloader", pi), func() {
+				for _, l := range lives {
+					if r.Aborted() {
+						return
+					}
+					at := l.AtUs
+					if at < 0 || at > 1000000 {
+						at = 0
+					}
+					r.Sleep(time.Duration(at) * time.Microsecond)
+					for i := 0; i < l.Skip && i < 16 && !r.Aborted(); i++ {
+						r.Yield("c12.reloader")
+					}
+					reload(true)
+				}
+			})
+		}
+		r.WaitTasks()
+		if r.Aborted() {
+			break
+		}
+	}
 	if maxInflight >= 2 {
 		r.Probe("c12.requests_overlap_in_cached_mux")
 	}
 	if mismatches == 0 && potentialHit > 0 {
 		r.Probe("c12.run_with_repeats_and_no_mismatch")
 	}
+	if len(refs) > 1 {
+		r.Probe("c12.run_with_reload")
+	}
 	if variedHit > 0 {
 		r.Nontrivial()
 	}
-	r.SetSig(fmt.Sprintf("%d|%s|%s", sc.CacheSize, specJSON, sig.String()))
+	r.SetSig(fmt.Sprintf("%d|%s|%s", sc.CacheSize, gens[0].text, sig.String()))
 }
 
 func TestVerifC12(t *testing.T) {
@@ -1269,16 +2016,20 @@ func TestVerifC12(t *testing.T) {
 		Shrink:   c12Shrink,
 		MaxSteps: 20000,
 		Rule: "scenario = drawn HTTPServer spec (1-3 rules, host/hostRegexp/any, exact/prefix/regexp/any paths, method lists, header-conditioned entries often followed by their header-less copy, " +
-			"IP filters at server/rule/path level, rewrites, unknown backends) x cacheSize in {1,2,3,16} x 1-4 client tasks sending 4-28 requests over a small alphabet with repeats of earlier (host,method,path) under other headers/IPs " +
-			"and, in a fifth of the runs, host+method pairs whose concatenations coincide, and (in 3 of 4 runs) near-miss variants of earlier requests (host case/port/trailing dot, path slash/case/percent-escape/query, method case); every request is also put to a cacheSize=0 twin of the same spec; " +
-			"non-trivial = at least one request repeated the (host,method,path) of an earlier one with other headers or another client IP (the cache can matter); distinct = distinct (spec, ordered request/answer history)",
-		Real: []string{"pkg/object/httpserver mux (newMux, reload, ServeHTTP, search, route cache on hashicorp ARC)", "pkg/util/ipfilter", "pkg/protocols/httpprot request/response", "pkg/context", "supervisor.NewSpec validation of the generated spec"},
-		Stub: []string{"MuxMapper and backend handlers (harness: record backend and handler-visible path)", "clients (harness tasks with httptest recorders, no sockets)", "sync/atomic of mux.go -> simatomic (same semantics + gates)"},
+			"IP filters at server/rule/path level, rewrites, unknown backends, clientMaxBodySize at server/path level) x cacheSize in {1,2,3,16} x 1-4 client tasks per phase sending 4-28 requests (some with bodies, some with the client IP in X-Forwarded-For / X-Real-Ip) over a small alphabet with repeats of earlier (host,method,path) under other headers/IPs " +
+			"and, in a fifth of the runs, host+method pairs whose concatenations coincide, and (in 3 of 4 runs) near-miss variants of earlier requests (host case/port/trailing dot, path slash/case/percent-escape/query, method case); " +
+			"in two thirds of the runs 1-3 hot reloads of BOTH muxes with an edited / server-level-only / identical / fresh spec, each at a quiescent point between two phases or by a reloader task while requests are in flight; every request is also put to the cache-less instance of every generation it may have seen; " +
+			"non-trivial = at least one request repeated the (host,method,path) of an earlier one of the same generation with other headers or another client IP (the cache can matter); distinct = distinct (spec, ordered request/answer/reload history)",
+		Real: []string{"pkg/object/httpserver mux (newMux, reload, ServeHTTP, search, route cache on hashicorp ARC)", "pkg/util/ipfilter", "pkg/protocols/httpprot request/response (FetchPayload with body limits)", "pkg/context", "supervisor.NewSpec validation of the generated spec (generation 0 always, later generations in a tenth of the runs)"},
+		Stub: []string{"MuxMapper and backend handlers (harness: record backend and handler-visible path)", "clients (harness tasks with httptest recorders, no sockets)", "sync/atomic of mux.go -> simatomic (same semantics + gates)",
+			"supervisor.Spec of later generations: decoded from the rendered text like NewSpec does, without the validation passes (harness helper C12Decode)"},
 		Assumptions: []string{
-			"both muxes are reloaded from one validated spec object, the twin while its cacheSize field is 0 (reload reads the field only then); a probe checks that exactly the system under test owns a cache",
-			"oracle = the same routing code with cacheSize 0 (a routing bug that is independent of the cache is property C01's business and is not reported here)",
-			"search() contains no gate, so cache operations of concurrent requests are serialised in the order the harness records; overlap exists only around the handler call",
-			"client IP is the transport address; no reload, no request bodies, xForwardedFor off, one path condition per entry",
+			"both muxes are reloaded from one validated spec object per generation, the twin while its cacheSize field is 0 (reload reads the field only then); a probe checks that exactly the system under test owns a cache",
+			"oracle = the same routing code with cacheSize 0 and the same history of reloads (a routing bug that is independent of the cache is property C01's business and is not reported here)",
+			"a request started after lo reloads of the cached mux returned and finished when hi reloads had begun may be answered like any generation lo..hi of the cache-less server; with lo == hi it must be answered like that generation",
+			"reloads are serialised (never two at a time); the MuxMapper and the set of unknown backends do not change across reloads; cacheSize stays > 0",
+			"without statement gates search() contains no gate, so cache operations of concurrent requests are serialised in the order the harness records (used by the classifier only); overlap exists around the handler call and around the gates of reload()",
+			"client IP is the transport address or, when the request carries X-Forwarded-For / X-Real-Ip, what those say (public addresses only); xForwardedFor off, one path condition per entry",
 			"the explanatory routing model is used only to name the violation class and is cross-checked against the twin on every request",
 		},
 	})
